@@ -53,7 +53,7 @@ RBN = "_sync,_sys,usr,u2,$document,$document.revid"
 ROW = ["row", "row.v", "row.cas", "row.exp", "row.json", "row.x", "row.tomb", "row.rev"]
 
 PROPS = {
-    "C01": dict(modules=["Rosmar.Properties.C01", "Rosmar.Gen.TieSqlAdd", "Rosmar.Gen.TieSqlSet", "Rosmar.Gen.TieSqlWcas", "Rosmar.Gen.TieSqlRemove", "Rosmar.Gen.TieSqlTouch", "Rosmar.Gen.TieSqlXattr", "Rosmar.Gen.TieSqlReadPins"], slices=[KV, KVD, MULTI], proj=V.proj_all,
+    "C01": dict(modules=["Rosmar.Properties.C01", "Rosmar.Gen.TieSqlAdd", "Rosmar.Gen.TieSqlSet", "Rosmar.Gen.TieSqlWcas", "Rosmar.Gen.TieSqlRemove", "Rosmar.Gen.TieSqlTouch", "Rosmar.Gen.TieSqlXattr", "Rosmar.Gen.TieSqlReadPins", "Rosmar.Gen.TieSqlLift"], slices=[KV, KVD, MULTI], proj=V.proj_all,
                 what="every read after every operation (raw row + every public read), every result"),
     "C02": dict(modules=["Rosmar.Properties.C02", "Rosmar.Gen.TieSqlWcas", "Rosmar.Gen.TieSqlRemove", "Rosmar.Gen.TieSqlXattr", "Rosmar.Gen.TieSqlProps"], slices=[KV, KVD, SUBDOC],
                 proj=P(rb=ROW, results=True, ops={"wcas", "remove", "wwx", "wtx", "updx", "rmx", "uxdb", "swm", "dwm", "update", "wuwx"}),
@@ -64,7 +64,7 @@ PROPS = {
     "C05": dict(modules=["Rosmar.Properties.C05", "Rosmar.Gen.TieSqlAdd", "Rosmar.Gen.TieSqlSet", "Rosmar.Gen.TieSqlWcas", "Rosmar.Gen.TieSqlRemove", "Rosmar.Gen.TieSqlXattr", "Rosmar.Gen.TieSqlPurge", "Rosmar.Gen.TieSqlProps"], slices=[KV, FEEDS, MULTI],
                 proj=P(rb=["row", "row.v", "row.tomb", "row.x", "row.exp", "gr", "ex", "gwx"], ev=["k", "op", "cas"], results=True),
                 what="tombstone flag, body, xattrs, expiry, reads, feed opcodes"),
-    "C06": dict(modules=["Rosmar.Properties.C06", "Rosmar.Gen.TieSqlAdd", "Rosmar.Gen.TieSqlWcas", "Rosmar.Gen.TieSqlXattr", "Rosmar.Gen.TieSqlProps"], slices=[KV, KVD, MULTI],
+    "C06": dict(modules=["Rosmar.Properties.C06", "Rosmar.Gen.TieSqlAdd", "Rosmar.Gen.TieSqlWcas", "Rosmar.Gen.TieSqlXattr", "Rosmar.Gen.TieSqlProps", "Rosmar.Gen.TieSqlLift"], slices=[KV, KVD, MULTI],
                 proj=P(rb=ROW, results=True, ops={"add", "wcas", "wrx", "wwx"}),
                 what="results of insert-style writes and the row before/after"),
     "C07": dict(modules=["Rosmar.Properties.C07", "Rosmar.Gen.TieSqlSet", "Rosmar.Gen.TieSqlWcas", "Rosmar.Gen.TieSqlRemove", "Rosmar.Gen.TieSqlXattr"], slices=[KV, KVD],
